@@ -38,6 +38,10 @@ MENU = [
     obj(ABSENT, 11, 42, []),                             # invalid object (1.0 marker, bad method)
     "{not json",                                         # unparsable text
     obj("2.0", 12, "pair", "bad"),                       # invalid object (2.0 marker, bad params)
+    obj(ABSENT, 13, "retfault", []),                     # 1.0 call whose method returns a Fault object
+    obj("2.0", 14, "retfault"),                          # 2.0 call whose method returns a Fault object
+    obj("2.0", 15, "f", [{"__jsonclass__": ["mc.ref.beans.Plain", []], "a": 2}, {"__jsonclass__": ["decimal.Decimal", ["1.5"]]}]),  # translated beans
+    obj(ABSENT, 16, "f", [{"__jsonclass__": ["NoSuchLocalClass", []]}]),  # bare class name (rejected unless a class table knows it)
 ]
 TEXTS = [m if isinstance(m, str) else B.dumps(m) for m in MENU]
 
@@ -234,7 +238,7 @@ def leg_copy(part, tier, shard, nshards):
 
 # -- concurrent part (E1) ----------------------------------------------------------------------
 
-PAIRS = [(0, 1), (0, 4), (2, 8), (1, 0), (10, 1), (12, 0), (8, 9), (5, 2)]
+PAIRS = [(0, 1), (0, 4), (2, 8), (1, 0), (10, 1), (12, 0), (8, 9), (5, 2), (13, 1), (15, 0)]
 TRIPLES = [(0, 1, 4), (2, 8, 10)]
 
 
@@ -321,8 +325,8 @@ META = {
     "serial_legs": ("concurrent",),
     "technique": "explicit enumeration of request histories on the real dispatcher with a differential oracle (fresh dispatcher) and Config snapshots; "
     "stateless model checking of two concurrent dispatcher threads at source-line granularity; enumeration of mutation sequences on Config.copy()",
-    "rule": "history: every sequence of <=3 (thorough <=4) requests over a 13-request menu (1.0/2.0 calls, notifications, failing, unknown, bad arity, mixed "
-    "and 1.0 batches, invalid objects of both versions, unparsable text) x 6 server configurations (2.0, 1.0, translation off, inline notification pool, "
+    "rule": "history: every sequence of <=3 (thorough <=4) requests over a 17-request menu (1.0/2.0 calls, notifications, failing, unknown, bad arity, mixed "
+    "and 1.0 batches, invalid objects of both versions, unparsable text, methods returning a Fault object, requests carrying translated beans) x 6 server configurations (2.0, 1.0, translation off, inline notification pool, "
     "shared DEFAULT config); config-copy: every sequence of <=2 mutations from a 16-mutation menu on the copy and on the original from 3 start states; "
     "concurrent: 8 request pairs (thorough + 2 triples) x 3 configurations, every schedule up to the completed preemption level at line granularity of "
     "SimpleJSONRPCServer.py, jsonrpc.py, config.py; non-trivial = history of length >= 2 / mutation applied / execution with a choice point",
